@@ -1,0 +1,96 @@
+// Copyright 2020-2025 Buf Technologies, Inc.
+//
+// Licensed under the Apache License, Version 2.0 (the "License");
+// you may not use this file except in compliance with the License.
+// You may obtain a copy of the License at
+//
+//      http://www.apache.org/licenses/LICENSE-2.0
+//
+// Unless required by applicable law or agreed to in writing, software
+// distributed under the License is distributed on an "AS IS" BASIS,
+// WITHOUT WARRANTIES OR CONDITIONS OF ANY KIND, either express or implied.
+// See the License for the specific language governing permissions and
+// limitations under the License.
+
+//go:build verif
+
+package bufgen
+
+// Contracts for the gocv verifier (see /verif/DESIGN.md). Comment-only.
+// Ghost variables and interface contracts: /verif/specs/R4e.spec (prefix re_).
+//
+// execLocalPlugin: the requests are built once from exactly the images handed in (one image for strategy all, the
+// per-directory images for strategy directory: chosen by execPlugins); if they cannot be built, nothing is run;
+// otherwise the local generator is called exactly once, for this plugin's name, with exactly the requests that were
+// built and with the plugin's path / protoc_path options; its response is returned unchanged; a plugin failure is an
+// error and gives no response.
+//@ func (g *generator) execLocalPlugin(ctx, container, pluginImages, pluginConfig, includeImports, includeWellKnownTypes) (r, err)
+//@   property C17
+//@   modifies heap, ghost.fail, ghost.wfail, ghost.sinkPaths, ghost.sinkBuckets, ghost.lastPutOptions, ghost.re_rw, ghost.re_fail0, ghost.re_respFrom, ghost.re_handleN, ghost.re_handleBy, ghost.re_handleReq, ghost.re_handleCGR, ghost.re_handleRW, ghost.re_handleErr, ghost.buf, ghost.re_runN, ghost.re_runName, ghost.re_runOpts, ghost.re_runErr, ghost.re_rwFilesN, ghost.re_rwFilesTo, ghost.re_rwFiles, ghost.re_rwErrN, ghost.re_rwErrTo, ghost.re_rwErrMsg, ghost.re_binResp, ghost.re_binDecoded, ghost.re_verBuf, ghost.re_verText, ghost.re_genN, ghost.re_genBy, ghost.re_genHandler, ghost.re_genReqs, ghost.re_genResp, ghost.re_genErr, ghost.re_lookN, ghost.re_looked, ghost.re_lookPath, ghost.re_lookErr, ghost.re_rawErr, ghost.re_hoPlugin, ghost.re_hoProtoc, ghost.re_handler, ghost.re_handlerErr, ghost.re_nhOpts, ghost.re_goPlugin, ghost.re_goProtoc, ghost.re_xgenN, ghost.re_xgenBy, ghost.re_xgenName, ghost.re_xgenReqs, ghost.re_xgenOpts, ghost.re_xgenResp, ghost.re_xgenErr, ghost.re_builtReqs, ghost.re_buildErr
+//@   ghost after "requests, err := bufimage.ImagesToCodeGeneratorRequests(" re_builtReqs := requests
+//@   ghost after "requests, err := bufimage.ImagesToCodeGeneratorRequests(" re_buildErr := err
+//@   ensures no-requests-nothing-run: ghost.re_buildErr != nil ==> err == ghost.re_buildErr && r == nil && ghost.re_xgenN == old(ghost.re_xgenN)
+//@   ensures run-once: ghost.re_buildErr == nil ==> ghost.re_xgenN == old(ghost.re_xgenN) + 1
+//@   ensures for-this-plugin: ghost.re_buildErr == nil ==> ghost.re_xgenName[old(ghost.re_xgenN)] == pluginConfig.Name()
+//@   ensures with-the-built-requests: ghost.re_buildErr == nil ==> ghost.re_xgenReqs[old(ghost.re_xgenN)] == ghost.re_builtReqs
+//@   ensures with-the-plugin-paths: ghost.re_buildErr == nil ==> len(ghost.re_xgenOpts[old(ghost.re_xgenN)]) == 2 && ghost.re_xgenOpts[old(ghost.re_xgenN)][0] == bufprotopluginexec.GenerateWithPluginPath(pluginConfig.Path()) && ghost.re_xgenOpts[old(ghost.re_xgenN)][1] == bufprotopluginexec.GenerateWithProtocPath(pluginConfig.ProtocPath())
+//@   ensures response-unchanged: err == nil ==> r != nil && r == ghost.re_xgenResp[old(ghost.re_xgenN)] && r.GetError() == ""
+//@   ensures plugin-failure-is-error: ghost.re_buildErr == nil && ghost.re_xgenErr[old(ghost.re_xgenN)] != nil ==> err != nil
+//@   ensures no-response-on-error: err != nil ==> r == nil
+//@   canary ensures err != nil
+//@   canary ensures err == nil
+//
+//@ func newGenerator(logger, storageosProvider, clientConfig) (r)
+//@   property C17
+//@   modifies heap
+//@   ensures wired: r != nil && r.storageosProvider == storageosProvider && r.clientConfig == clientConfig && r.logger == logger
+//@   ensures local-generator-on-the-same-provider: r.pluginexecGenerator != nil && typeOf(r.pluginexecGenerator) == typeId(*bufprotopluginexec.generator) && cast(*bufprotopluginexec.generator, r.pluginexecGenerator).storageosProvider == storageosProvider
+//
+// getPluginGenerationRequest: the request for one remote plugin: the name is read as a full reference (with the
+// configured revision) if it parses as one, else as a bare identity, else it is an error; the plugin's opt string is
+// sent as the single option, or no option at all when it is empty; include_imports / include_wkt are forwarded as given.
+//@ func getPluginGenerationRequest(pluginConfig, includeImports, includeWellKnownTypes) (r, err)
+//@   property C17
+//@   ensures reference-first: second(bufremotepluginref.PluginReferenceForString(pluginConfig.Name(), pluginConfig.Revision())) == nil ==> err == nil && r.GetPluginReference() == bufremoteplugin.PluginReferenceToProtoCuratedPluginReference(first(bufremotepluginref.PluginReferenceForString(pluginConfig.Name(), pluginConfig.Revision())))
+//@   ensures identity-second: second(bufremotepluginref.PluginReferenceForString(pluginConfig.Name(), pluginConfig.Revision())) != nil && second(bufremotepluginref.PluginIdentityForString(pluginConfig.Name())) == nil ==> err == nil && r.GetPluginReference() == bufremoteplugin.PluginIdentityToProtoCuratedPluginReference(first(bufremotepluginref.PluginIdentityForString(pluginConfig.Name())))
+//@   ensures invalid-name-is-error: (err != nil) <==> (second(bufremotepluginref.PluginReferenceForString(pluginConfig.Name(), pluginConfig.Revision())) != nil && second(bufremotepluginref.PluginIdentityForString(pluginConfig.Name())) != nil)
+//@   ensures no-request-on-error: err != nil ==> r == nil
+//@   ensures plugin-named: err == nil ==> r != nil && r.GetPluginReference() != nil
+//@   ensures opt-sent-once: err == nil && pluginConfig.Opt() != "" ==> len(r.GetOptions()) == 1 && r.GetOptions()[0] == pluginConfig.Opt()
+//@   ensures empty-opt-not-sent: err == nil && pluginConfig.Opt() == "" ==> len(r.GetOptions()) == 0
+//@   ensures include-imports-forwarded: err == nil ==> r.GetIncludeImports() == includeImports
+//@   ensures include-wkt-forwarded: err == nil ==> r.GetIncludeWellKnownTypes() == includeWellKnownTypes
+//@   canary ensures err != nil
+//@   canary ensures err == nil
+//
+// execRemotePluginsV2: one request per plugin config of the batch, in batch order, each carrying that plugin's
+// include_imports / include_wkt (or the command-line override); an invalid plugin name aborts before anything is
+// sent. The service's responses are matched back to the plugin configs BY POSITION: response i is returned under the
+// configuration index of batch element i; a different number of responses, or a response without a
+// CodeGeneratorResponse, is an error.
+//@ func (g *generator) execRemotePluginsV2(ctx, container, image, remote, indexedPluginConfigs, includeImportsOverride, includeWellKnownTypesOverride) (r, err)
+//@   property C17
+//@   modifies heap, ghost.re_remoteReqs, ghost.re_remoteAnswered, ghost.re_remoteResps
+//@   ghost before "requests := make(" re_remoteAnswered := false
+//@   ghost before "codeGenerationService := connectclient.Make(" re_remoteReqs := requests
+//@   ghost after "responses := response.Msg.GetResponses()" re_remoteResps := responses
+//@   ghost after "responses := response.Msg.GetResponses()" re_remoteAnswered := true
+//@   ensures matched-by-position: err == nil ==> ghost.re_remoteAnswered && len(r) == len(indexedPluginConfigs) && (forall i int :: 0 <= i && i < len(r) ==> r[i].Index == indexedPluginConfigs[i].Index && r[i].Value != nil && r[i].Value == ghost.re_remoteResps[i].GetResponse())
+//@   ensures count-mismatch-is-error: ghost.re_remoteAnswered && len(ghost.re_remoteResps) != len(indexedPluginConfigs) ==> err != nil
+//@   ensures missing-response-is-error: ghost.re_remoteAnswered && (exists i int :: 0 <= i && i < len(indexedPluginConfigs) && i < len(ghost.re_remoteResps) && ghost.re_remoteResps[i].GetResponse() == nil) ==> err != nil
+//@   ensures one-request-per-plugin: err == nil ==> len(ghost.re_remoteReqs) == len(indexedPluginConfigs) && (forall k int :: 0 <= k && k < len(indexedPluginConfigs) ==> ghost.re_remoteReqs[k] != nil)
+//@   ensures include-imports-forwarded: err == nil ==> (forall k int :: 0 <= k && k < len(indexedPluginConfigs) ==> ghost.re_remoteReqs[k].GetIncludeImports() == ite(includeImportsOverride != nil, old(deref(includeImportsOverride)), indexedPluginConfigs[k].Value.IncludeImports()))
+//@   ensures include-wkt-forwarded: err == nil ==> (forall k int :: 0 <= k && k < len(indexedPluginConfigs) ==> ghost.re_remoteReqs[k].GetIncludeWellKnownTypes() == ite(includeWellKnownTypesOverride != nil, old(deref(includeWellKnownTypesOverride)), indexedPluginConfigs[k].Value.IncludeWKT()))
+//@   ensures opt-forwarded: err == nil ==> (forall k int :: 0 <= k && k < len(indexedPluginConfigs) ==> len(ghost.re_remoteReqs[k].GetOptions()) == ite(indexedPluginConfigs[k].Value.Opt() == "", 0, 1) && (indexedPluginConfigs[k].Value.Opt() != "" ==> ghost.re_remoteReqs[k].GetOptions()[0] == indexedPluginConfigs[k].Value.Opt()))
+//@   ensures no-result-on-error: err != nil ==> len(r) == 0
+//@   loop 0 invariant one-slot-per-plugin: len(requests) == len(indexedPluginConfigs) && !ghost.re_remoteAnswered
+//@   loop 0 invariant flags-forwarded: forall k int :: 0 <= k && k < $i ==> requests[k] != nil && requests[k].GetIncludeImports() == ite(includeImportsOverride != nil, old(deref(includeImportsOverride)), indexedPluginConfigs[k].Value.IncludeImports()) && requests[k].GetIncludeWellKnownTypes() == ite(includeWellKnownTypesOverride != nil, old(deref(includeWellKnownTypesOverride)), indexedPluginConfigs[k].Value.IncludeWKT())
+//@   loop 0 invariant opt-forwarded: forall k int :: 0 <= k && k < $i ==> len(requests[k].GetOptions()) == ite(indexedPluginConfigs[k].Value.Opt() == "", 0, 1) && (indexedPluginConfigs[k].Value.Opt() != "" ==> requests[k].GetOptions()[0] == indexedPluginConfigs[k].Value.Opt())
+//@   loop 0 invariant overrides-untouched: deref(includeImportsOverride) == old(deref(includeImportsOverride)) && deref(includeWellKnownTypesOverride) == old(deref(includeWellKnownTypesOverride))
+//@   loop 1 invariant one-result-per-response: len(result) == $i
+//@   loop 1 invariant matched-by-position: forall k int :: 0 <= k && k < $i ==> result[k].Index == indexedPluginConfigs[k].Index && result[k].Value != nil && result[k].Value == responses[k].GetResponse()
+//@   canary ensures err != nil
+//@   canary ensures err == nil
+//
+// createPluginConfigKeyForImage: NOT under contract. Engine: "generator.go:509: out-of-fragment: assignment target
+// *ast.CallExpr" (sort.Strings(pluginConfig.IncludeTypes()) sorts the slice an interface accessor returned, in place).
